@@ -16,7 +16,13 @@ streams
           collides with what the template itself produces (static names with/without extension, the first numbered
           names, values equal after sanitising).  "The same on every run" is checked twice: a second run in this
           process, and a sample of the documents (plus fixed standard documents) in fresh interpreter processes with
-          different PYTHONHASHSEED values.
+          different PYTHONHASHSEED values.  A sample also runs through the real command line client (plasTeX.client.main)
+          with the split level / template / forbidden characters given by --config files, by switches, by both (the file holding
+          other values) and by two files: the files written must be those the effective configuration prescribes and equal to
+          the result of setting the same values on the configuration object.  A sample also runs through the real command line client (plasTeX.client.main)
+          with the split level / template / forbidden characters given by --config files, by switches, by both (the file holding
+          other values) and by two files: the files written must be those the effective configuration prescribes and equal to
+          the result of setting the same values on the configuration object.
 """
 import os, re, sys, json, shutil, tempfile, logging, random
 from framework import Case, Violation, run_driver
@@ -44,6 +50,10 @@ TECHNIQUE = 'Lean 4 proof (mutual structural induction on document trees) + diff
 TRUSTED = ['real HTML5/XHTML templates render the children of a node in order (doc13 stream only)',
            'plasTeX/Filenames.py is tied to its model by property C15; here its real names are compared with the names the composed model predicts, and checked for distinctness and forbidden characters, on every case']
 ASSUMPTIONS = ['no node carries a filenameoverride or splitlevel attribute (set nowhere in plasTeX)',
+               'a node with a unicode equivalent (node.str) is a leaf that is neither a sectioning unit nor a footnote (domain of the theorems; the model covers the other cases)',
+               'which configuration is in effect (defaults < --config files < command line) is property C16; here the effective split level / template / forbidden characters are checked through the real command line client on a sample',
+               'a node with a unicode equivalent (node.str) is a leaf that is neither a sectioning unit nor a footnote (domain of the theorems; the model covers the other cases)',
+               'which configuration is in effect (defaults < --config files < command line) is property C16; here the effective split level / template / forbidden characters are checked through the real command line client on a sample',
                'every node with level < ENDSECTIONS_LEVEL mixes in SectionUtils (true of all plasTeX classes)',
                'blank titles are not combined with $title(n) (defect D12 of the filename generator, property C15)',
                'a footnote is never itself a sectioning unit (domain of the theorems; nested footnotes and units inside footnotes are covered)']
@@ -65,10 +75,11 @@ DEFAULT_BAD = ': #$%^&*!~`"\'=?/{}[]()|<>;\\,.'
 
 class T:
     """abstract tree: text leaf (m) or element"""
-    __slots__ = ('m', 'tag', 'level', 'foot', 'id', 'title', 'ref', 'name', 'kids')
+    __slots__ = ('m', 'tag', 'level', 'foot', 'id', 'title', 'ref', 'name', 'kids', 'uni')
 
-    def __init__(self, m=None, tag=0, level=1001, foot=False, id=None, title=None, ref=None, name='n', kids=None):
+    def __init__(self, m=None, tag=0, level=1001, foot=False, id=None, title=None, ref=None, name='n', kids=None, uni=False):
         self.m, self.tag, self.level, self.foot, self.id, self.title, self.ref, self.name = m, tag, level, foot, id, title, ref, name
+        self.uni = uni          # the node has a unicode equivalent (`node.str`): printed as that text
         self.kids = kids if kids is not None else []
 
     def is_text(self):
@@ -87,7 +98,7 @@ def enc_tree(t, out):
     if t.is_text():
         out += ['T', str(t.m)]
     else:
-        out += ['E', str(t.tag), 'D' if t.level == 'D' else str(t.level), '1' if t.foot else '0', enc_opt(t.id), enc_opt(t.title),
+        out += ['E', str(t.tag), 'D' if t.level == 'D' else str(t.level), ('3' if t.foot else '2') if t.uni else ('1' if t.foot else '0'), enc_opt(t.id), enc_opt(t.title),
                 enc_opt(t.ref), t.name or '=', str(len(t.kids))]
         for k in t.kids:
             enc_tree(k, out)
@@ -102,7 +113,7 @@ def dec_trees(ws, i, n):
         else:
             tag, lvl, ft, id_, title, ref, name, nk = ws[i + 1:i + 9]
             kids, i = dec_trees(ws, i + 9, int(nk))
-            res.append(T(tag=int(tag), level='D' if lvl == 'D' else int(lvl), foot=(ft == '1'), id=dec_opt(id_), title=dec_opt(title),
+            res.append(T(tag=int(tag), level='D' if lvl == 'D' else int(lvl), foot=(ft in ('1', '3')), uni=(ft in ('2', '3')), id=dec_opt(id_), title=dec_opt(title),
                          ref=dec_opt(ref), name='' if name == '=' else name, kids=kids))
     return res, i
 
@@ -164,6 +175,20 @@ class TreeGen:
         """text, inline element, footnote"""
         rng = self.rng
         r = rng.random()
+        if r < 0.08:
+            # a command with a unicode equivalent: a leaf; malformed: with children, a footnote or at a sectioning level
+            u = T(tag=self.newtag(), level=1001, name=rng.choice(['S', 'ldots', 'dag']), uni=True)
+            if self.malformed and rng.random() < 0.4:
+                k = rng.randrange(3)
+                if k == 0:
+                    u.kids = [self.text()]
+                elif k == 1:
+                    u.level = rng.choice([0, 1, 2])
+                else:
+                    u.kids = [T(tag=self.newtag(), level=1001, foot=True, name='footnote', kids=[self.text()])]
+                if rng.random() < 0.3:
+                    u.foot = True             # a footnote with a unicode equivalent
+            return u
         if r < 0.55 or depth <= 0:
             return self.text()
         if r < 0.8:
@@ -369,6 +394,8 @@ def build_dom(env, doc, t, parent, foots, rng):
     n = env['cls'](t.name, level)()
     n.ownerDocument = doc
     n.c13tag, n.c13foot = t.tag, t.foot
+    if t.uni:
+        n.str = 'u%d ' % t.tag       # as for \\S, \\ldots, ...: Renderable.__str__ prints this text instead of rendering the node
     if t.id is not None:
         n.id = t.id
     for attr, val in (('title', t.title), ('ref', t.ref)):
@@ -656,6 +683,11 @@ class DocGen:
                 elif r < 0.25:
                     w = '\\textbf{\\textit{%s}}' % w
                 words.append(w)
+                if rng.random() < 0.08:
+                    # a command with a unicode equivalent (node.str): printed as that character, no template, no file
+                    sym = rng.choice(['S', 'dag', 'ldots', 'P'])
+                    node.kids.append(T(tag=self.newtag(), level=1001, name=sym, uni=True))
+                    words.append('\\%s{}' % sym)
                 if rng.random() < 0.25:
                     fk = []
                     fw = []
@@ -739,7 +771,7 @@ def abstract(t):
     """the tree as sent to the driver: titles/ids do not matter for the prescription (and may contain blanks)"""
     if t.is_text():
         return t
-    return T(tag=t.tag, level=t.level, foot=t.foot, id=None, title='x', ref=None, name=t.name, kids=[abstract(k) for k in t.kids])
+    return T(tag=t.tag, level=t.level, foot=t.foot, id=None, title='x', ref=None, name=t.name, kids=[abstract(k) for k in t.kids], uni=t.uni)
 
 
 def render_doc(src, renderer, theme, split, template, bad, sub):
@@ -972,6 +1004,154 @@ def xproc_checks(ctx, extras):
     return viol, len(extras) * len(seeds)
 
 
+# ---------------------------------------------------------------- the configuration as the user gives it: command line client
+
+CLI_ROUTES = ['ini', 'switches', 'ini+switches', 'two-ini']
+DECOY = {'split': 5, 'template': 'decoy [$id, d$num(2)]', 'bad': ': /', 'sub': '_'}
+
+
+def _ini_ok(v):
+    """a value an INI file can carry unchanged (configparser strips blanks around a value)"""
+    return v == v.strip() and '\n' not in v
+
+
+def cli_plan(e, route):
+    """how the configuration of `e` reaches `plasTeX.client.main`: ([(ini file name, text)], argv switches).
+    The effective configuration must be: command line switch > later --config file > earlier --config file > default."""
+    esc = lambda v: v.replace('%', '%%')          # option values are %-interpolated when read
+    real = {'split': str(e['split']), 'template': esc(e['template']), 'bad': esc(e['bad']), 'sub': esc(e['sub'])}
+    decoy = {'split': str(DECOY['split']), 'template': DECOY['template'], 'bad': DECOY['bad'], 'sub': DECOY['sub']}
+    keys = {'split': ('split-level', '--split-level'), 'template': ('filename', '--filename'),
+            'bad': ('bad-chars', '--bad-filename-chars'), 'sub': ('bad-chars-sub', '--bad-filename-chars-sub')}
+
+    def ini(vals, with_general=True):
+        lines = ['[files]'] + ['%s = %s' % (keys[k][0], v) for k, v in vals.items()]
+        if with_general:
+            lines += ['[general]', 'renderer = %s' % e['renderer'], 'theme = %s' % e['theme'],
+                      '[images]', 'imager = none', 'vector-imager = none']
+        return '\n'.join(lines) + '\n'
+
+    general_sw = ['--renderer=' + e['renderer'], '--theme=' + e['theme'], '--imager=none', '--vector-imager=none']
+    sw = lambda vals: ['%s=%s' % (keys[k][1], v) for k, v in vals.items()]
+    in_ini = {k: v for k, v in real.items() if _ini_ok(v)}
+    not_in_ini = {k: v for k, v in real.items() if k not in in_ini}
+    if route == 'ini':
+        return [('a.ini', ini(in_ini))], sw(not_in_ini)
+    if route == 'switches':
+        return [], general_sw + sw(real)
+    if route == 'ini+switches':        # the file holds other values for what the command line sets
+        half = dict(list(real.items())[:2])
+        rest = {k: v for k, v in real.items() if k not in half}
+        file_vals = dict({k: decoy[k] for k in half}, **{k: v for k, v in rest.items() if _ini_ok(v)})
+        return [('a.ini', ini(file_vals))], sw(half) + sw({k: v for k, v in rest.items() if not _ini_ok(v)})
+    if route == 'two-ini':             # a later file overrides an earlier one
+        return [('a.ini', ini(decoy)), ('b.ini', ini(in_ini, with_general=False))], sw(not_in_ini)
+    raise ValueError(route)
+
+
+def cli_worker():
+    """child process: each document through `plasTeX.client.main` (configuration by files / switches) and, for comparison,
+    through the programmatic route of doc13"""
+    import framework  # noqa: F401
+    import io, contextlib
+    logging.disable(logging.CRITICAL)
+    extras = json.load(sys.stdin)
+    res = []
+    home = os.getcwd()
+    for e in extras:
+        work = tempfile.mkdtemp(prefix='verif-c13-cli-')
+        try:
+            files, switches = cli_plan(e, e['cli'])
+            open(os.path.join(work, 'job.tex'), 'w', encoding='utf-8').write(e['tex'])
+            argv = []
+            for name, text in files:
+                open(os.path.join(work, name), 'w', encoding='utf-8').write(text)
+                argv += ['--config', name]
+            argv += ['--no-theme-extras', '--dir', 'out'] + switches + ['job.tex']
+            os.chdir(work)
+            entry = {'argv': argv, 'ini': files}
+            try:
+                from plasTeX.client import main
+                with contextlib.redirect_stdout(io.StringIO()), contextlib.redirect_stderr(io.StringIO()):
+                    main(argv)
+                marks = {}
+                out = os.path.join(work, 'out')
+                for root, _, fs in os.walk(out):
+                    for f in fs:
+                        if not f.endswith(('.paux', '.log', '.css', '.js', '.png', '.svg', '.gif')):   # names need not end in .html
+                            marks[os.path.relpath(os.path.join(root, f), out)] = MARK.findall(
+                                open(os.path.join(root, f), encoding='utf-8', errors='replace').read())
+                entry['cli'] = marks
+            except BaseException as ex:      # argparse exits with SystemExit
+                entry['cli_error'] = '%s: %s' % (type(ex).__name__, str(ex)[:200])
+            finally:
+                os.chdir(home)
+                from plasTeX.DOM import Node
+                import plasTeX.Renderers as R
+                if hasattr(Node, 'renderer'):
+                    try:
+                        del Node.renderer
+                        R.unmix(Node, R.Renderable)
+                    except Exception:
+                        pass
+            try:
+                names, contents, _ = render_doc(e['tex'], e['renderer'], e['theme'], e['split'], e['template'], e['bad'], e['sub'])
+                entry['api'] = {n: MARK.findall(c) for n, c in contents.items()}
+            except Exception as ex:
+                entry['api_error'] = type(ex).__name__
+            res.append(entry)
+        finally:
+            os.chdir(home)
+            shutil.rmtree(work, True)
+    sys.stdout.write(json.dumps(res))
+
+
+def run_cli_worker(extras):
+    import subprocess
+    from framework import HARNESS, REPO
+    env = dict(os.environ, VERIF_REPO=REPO, PYTHONPATH=HARNESS + os.pathsep + os.environ.get('PYTHONPATH', ''), PYTHONDONTWRITEBYTECODE='1')
+    keys = ('tex', 'renderer', 'theme', 'split', 'template', 'bad', 'sub', 'cli')
+    pr = subprocess.run([sys.executable, '-c', 'import props.c13 as p; p.cli_worker()'], env=env,
+                        input=json.dumps([{k: e[k] for k in keys} for e in extras]), stdout=subprocess.PIPE, stderr=subprocess.PIPE,
+                        text=True, timeout=1800)
+    if pr.returncode != 0:
+        raise RuntimeError('doc13 cli worker failed: ' + pr.stderr[-800:])
+    return json.loads(pr.stdout)
+
+
+def cli_compare(e, r):
+    """'' when the command line client, configured by files/switches, produced what the configuration prescribes"""
+    how = 'plastex %s (config files: %s)' % (' '.join(r['argv']), '; '.join('%s = %r' % (n, t) for n, t in r['ini']))
+    if 'cli_error' in r:
+        return '%s raised %s' % (how, r['cli_error'])
+    if e.get('expected') is not None:
+        want = sorted(tuple(str(x) for x in b + f) for b, f in e['expected'])
+        got = sorted(tuple(v) for v in r['cli'].values())
+        if got != want:
+            return ('%s: files %r hold text markers that do not follow split level %d / template %r: expected per file %r'
+                    % (how, r['cli'], e['split'], e['template'], want))
+    if 'api' in r and r['cli'] != r['api']:
+        return ('%s: files and text markers %r differ from the same configuration (split level %d, template %r, bad chars %r -> %r) '
+                'set on the configuration object: %r' % (how, r['cli'], e['split'], e['template'], e['bad'], e['sub'], r['api']))
+    return ''
+
+
+def cli_checks(ctx, extras):
+    """split level / template / forbidden characters as a user gives them: --config files and command line switches"""
+    std = [{'tex': XPROC_STANDARD_TEX, 'split': sp, 'template': t, 'bad': DEFAULT_BAD, 'sub': '-', 'renderer': 'XHTML', 'theme': 'default',
+            'expected': None} for sp, t in ((0, 'start [$title(1), unit$num(2)]'), (1, 'index [$id, sect$num(4)]'), (-10, 'whole'), (2, '[s$num(3)]'))]
+    cases = [dict(e, cli=CLI_ROUTES[i % len(CLI_ROUTES)]) for i, e in enumerate(std + extras)]
+    outs = run_cli_worker(cases)
+    viol = []
+    for e, r in zip(cases, outs):
+        msg = cli_compare(e, r)
+        if msg:
+            viol.append(Violation('doc13: ' + msg, {'kind': 'failing-input', 'extra': e, 'observed': msg}))
+            if len(viol) >= 3:
+                break
+    return viol, len(cases)
+
+
 def shrink_doc(extra):
     """drop lines of the document while the same kind of failure stays (expected is recomputed from the abstract tree, so only
     configuration shrinking is attempted here: keep it simple and sound)"""
@@ -990,10 +1170,19 @@ def extra_checks(ctx):
         stats['evaluations'] += evals
         stats['separate_process_runs'] = evals
         viol += v2
+    if not viol:
+        # the configuration as a user gives it: through the command line client, by --config files and switches
+        k = 12 if ctx.tier == 'quick' else 120
+        v3, evals = cli_checks(ctx, [e for e in collected if len(e['expected']) >= 2][:k])
+        stats['evaluations'] += evals
+        stats['command_line_client_runs'] = evals
+        viol += v3
     return viol, stats
 
 
 def replay_extra(ctx, extra):
+    if extra.get('cli'):
+        return bool(cli_compare(extra, run_cli_worker([extra])[0]))
     if extra.get('xproc'):
         seeds = list(extra['xproc'])
         outs = run_workers([extra], seeds)
